@@ -242,7 +242,8 @@ def rule_outbuf(ctx, cfg, r):
         for a, s in x.atoms:
             if a[0] == "bin" and a[1] == "Gt" and a[2] == sat and a[3] == ln:
                 gt = s.single()
-        good = d.get("position") == P(2) and ((gt == 1 and m == ln) or (gt == 0 and m == sat))
+        is_min = bool(m) and m[0] == "pure" and m[1] == "min" and set(m[2]) == {sat, ln}      # written as one `min` call
+        good = d.get("position") == P(2) and ((gt == 1 and m == ln) or (gt == 0 and m == sat) or is_min)
         if not good:
             okk = False
             r.fail(f.name, "max", "OutputBuffer.max is not min(position.saturating_add(max_count), slice.len()): %s under %r" % (tstr(m) if m else None, gt))
@@ -372,7 +373,8 @@ def rule_transfer_bound(ctx, cfg, r):
         t = blk["t"]
         if "switch" in t and len(t["targets"]) >= 3:
             e = ic.local_expr(c, f, bb, t["switch"])
-            if e and e[0] == "bin" and e[1] == "BitAnd" and e[2] == ("var", "match_len") and is_const(e[3]) and const_val(e[3]) == 3:
+            if e and e[0] == "bin" and e[2] == ("var", "match_len") and is_const(e[3]) and \
+                    ((e[1] == "BitAnd" and const_val(e[3]) == 3) or (e[1] == "Rem" and const_val(e[3]) == 4)):
                 tail = bb
     if tail is None:
         r.fail(f.name, "tail", "the `match_len & 3` tail dispatch was not found")
@@ -387,17 +389,19 @@ def rule_transfer_bound(ctx, cfg, r):
     ev = paths.Evaluator(c, stop_blocks=[tail], max_paths=4000)
     rows = ev.run(f)
     ml, op = P(4), P(3)
-    words = ("bin", "Add", ("bin", "Mul", ("bin", "Shr", ml, ("int", 2), "usize"), ("int", 4), "usize"), op, "usize")
+    from rules.copyrt import lin
 
     def is_words(t):
-        if t == words:
-            return True
-        if t[0] == "bin" and t[1] == "Add" and t[3] == op and t[2][0] == "bin" and t[2][1] == "Mul" and const_val(t[2][3]) == 4 and \
-                t[2][2] == ("bin", "Shr", ml, ("int", 2), "usize"):
-            return True
+        """t == out_pos + W with W = match_len rounded down to a multiple of 4 (any spelling: `(len >> 2) * 4`, `len & !3`, ... are one
+        canonical term), or a min() that has such an operand"""
         if t[0] == "pure" and t[1] == "min":
             return any(is_words(q) for q in t[2])
-        return False
+        cst, sym = lin(t)
+        if cst != 0 or sym.get(op) != 1 or len(sym) != 2:
+            return False
+        w = [k for k in sym if k != op][0]
+        return sym[w] == 1 and w[0] == "bin" and w[1] == "BitAnd" and w[2] == ml and is_const(w[3]) and const_val(w[3]) & 3 == 0 and \
+            const_val(w[3]) & 0xFFFFFFFC == 0xFFFFFFFC
     nloops = 0
     for x in rows:
         # loop guards `out_pos < E` and fill ranges `out_pos..E`
@@ -426,7 +430,7 @@ def run(ctx):
     cfgs = ["H1"] + (["T1"] if ctx.thorough() else [])
     for cfg in cfgs:
         sfx = "" if cfg == "H1" else "@" + cfg
-        r1 = ctx.rule("R08.1" + sfx, "granted window: max = min(out_pos + out_max, len); bytes_left relative to max", floor=3, config=cfg)
+        r1 = ctx.rule("R08.1" + sfx, "granted window: max = min(out_pos + out_max, len); bytes_left relative to max", floor=2, config=cfg)
         rule_outbuf(ctx, cfg, r1)
         r2 = ctx.rule("R08.2" + sfx, "the output slice is written only through write_byte / write_slice / apply_match / transfer", floor=5, config=cfg)
         rule_writers(ctx, cfg, r2)
